@@ -1,6 +1,232 @@
-//! C02 — not built yet.
-use crate::rt::*;
+//! C02 — BFV/BGV evaluation is an exact ring homomorphism for every operation program.
+//! Shadow: plaintext polynomial in Z_t[X]/(X^N+1) maintained with reference arithmetic.
+//! Oracles: library decryption AND oracle decryption must equal the shadow whenever the
+//! worst-case noise is below the threshold (P1: pure analytic recursion = the property's
+//! precondition; P2: one-step worst case from the operands' exactly measured noise — sound and
+//! tighter, counted separately).
 
-pub fn run(_cfg: &Cfg, _rep: &mut Report) -> PropMeta {
-    PropMeta { id: "C02", level: "exploration", rule: "not built", assumptions: vec![], exhaustive: false, floor: 1 }
+use crate::he::*;
+use crate::prog::*;
+use crate::props::c01::gen_plain;
+use crate::refm;
+use crate::rt::*;
+use heathcliff::*;
+use serde_json::json;
+
+const P: &str = "C02";
+
+pub fn program_spec(rng: &mut Rng, n_choices: &[usize], scheme: Option<SchemeType>) -> Option<Spec> {
+    let scheme = scheme.unwrap_or(if rng.bool() { SchemeType::BFV } else { SchemeType::BGV });
+    let n = *rng.pick(n_choices);
+    let logm = (2 * n).trailing_zeros();
+    let k = rng.range(2, 6) as usize;
+    let mut bits: Vec<u32> = (0..k).map(|_| rng.range(45, 60) as u32).collect();
+    if rng.chance(1, 4) { bits[0] = rng.range(25, 44) as u32; }
+    let qs = coeff_primes(n, &bits, rng)?;
+    let (t, tf) = match rng.below(7) {
+        0 => (2u64, "2"),
+        1 => (1u64 << rng.range(2, 10), "2^k"),
+        2 => { let tb = rng.range((logm + 1) as u64, 18) as u32; (ntt_primes(n, tb, 3, 0).into_iter().find(|c| !qs.contains(c))?, "batching") }
+        3 => (65537, "65537"),
+        4 => (*rng.pick(&[3u64, 5, 7, 11, 13, 127, 251]), "small_prime"),
+        5 => (*rng.pick(&[6u64, 10, 12, 15, 100, 255]), "composite"),
+        _ => (rng.range(2, 1 << 12), "random"),
+    };
+    if qs.iter().any(|&q| refm::gcd(q, t) != 1) { return None; }
+    Some(Spec { scheme, n, qs, t, special_flag: false, expand: true, family: format!("prog-k{}-t:{}", k, tf) })
+}
+
+pub struct Obs<'a> { pub cfg: &'a Cfg, pub grp: &'a str, pub case: u64, pub prop: &'static str }
+
+fn viol(o: &Obs, rep: &mut Report, op: &str, class: &str, kind: &str, detail: String, m: &Machine, trace: &[String]) {
+    rep.violation(&format!("{}|{}|{}|{}", o.prop, op, class, kind), format!("{} ; program: {:?} ; params {}", detail, trace, m.kit.spec.describe()),
+        replay_json(o.cfg, o.grp, o.case, json!({"params": m.kit.spec.describe(), "program": trace})));
+}
+
+fn size_class(op: &Op, m: &Machine) -> String {
+    let ops = Machine::operands(op);
+    let s: Vec<usize> = ops.iter().map(|i| m.pool[*i].ct.size()).collect();
+    match op {
+        Op::Add(..) | Op::Sub(..) | Op::Multiply(..) => if s[0] == s[1] { "size_pair=equal".into() } else { "size_pair=unequal".into() },
+        _ => if s[0] == 2 { "size=2".into() } else { "size>2".into() },
+    }
+}
+
+/// Execute one step, check it as C02 demands, push the result. Returns false if the step failed.
+pub fn step_c02(o: &Obs, rep: &mut Report, m: &mut Machine, op: &Op, form: Form, trace: &mut Vec<String>, push_always: bool) -> bool {
+    let scheme = m.kit.spec.scheme_name();
+    let cls = size_class(op, m);
+    let ops = Machine::operands(op);
+    let sizes: Vec<usize> = ops.iter().map(|i| m.pool[*i].ct.size()).collect();
+    let lvl = m.pool[ops[0]].level;
+    let ntt = m.pool[ops[0]].ct.is_ntt_form();
+    trace.push(format!("{:?}/{:?} sizes={:?} L{} ntt={}", op_brief(op), form, sizes, lvl, ntt));
+    let ct = match m.execute(op, form) {
+        Ok(c) => c,
+        Err(p) => { viol(o, rep, op.name(), &format!("{}|{}", scheme, cls), "panic", format!("well-typed operation panicked: {}", p.0), m, trace); return false; }
+    };
+    let (esz, elv, entt) = m.expected_meta(op);
+    let meta_ok = ct.size() == esz && m.kit.level_of(ct.parms_id()) == Some(elv) && ct.is_ntt_form() == entt && ct.scale() == 1.0
+        && (m.bfv && ct.correction_factor() == 1 || !m.bfv && ct.correction_factor() >= 1 && ct.correction_factor() < m.t());
+    if !meta_ok {
+        viol(o, rep, op.name(), &format!("{}|{}", scheme, cls), "metadata", format!("result metadata: size {} (want {}), level {:?} (want {}), ntt {} (want {}), scale {}, cf {}",
+            ct.size(), esz, m.kit.level_of(ct.parms_id()), elv, ct.is_ntt_form(), entt, ct.scale(), ct.correction_factor()), m, trace);
+        return false;
+    }
+    let el = m.result_elem(op, ct);
+    let p1 = m.within(el.e_an, el.level);
+    let p2 = el.e_step.map(|e| m.within(e, el.level)).unwrap_or(false);
+    let cell = format!("{}|{}|{}|L{}|{}", scheme, op.name(), sizes.iter().map(|s| s.to_string()).collect::<Vec<_>>().join("x"), lvl, if ntt { "ntt" } else { "coef" });
+    let mut bad = false;
+    if p1 || p2 {
+        rep.count("asserted_precondition", if p1 { "P1_analytic" } else { "P2_measured_operands" });
+        rep.count("op_cells", &cell);
+        match m.lib_decrypt(&el.ct) {
+            Err(p) => { bad = true; viol(o, rep, op.name(), &format!("{}|{}|decrypt", scheme, cls), "panic", format!("decrypting the result panicked: {}", p.0), m, trace) }
+            Ok(got) => if got != el.m {
+                bad = true;
+                viol(o, rep, op.name(), &format!("{}|{}", scheme, cls), "value", format!("library decryption != program value: got {:?} want {:?} (cf {}, measured noise {:?}, bound {:?}/{:e})",
+                    &got[..got.len().min(8)], &el.m[..el.m.len().min(8)], el.ct.correction_factor(), el.e_meas, el.e_step, el.e_an), m, trace);
+            }
+        }
+        if let Some((om, budget)) = m.oracle_decrypt(&el.ct) {
+            rep.min(&format!("budget_bits_at_assertion_{}", scheme), budget as f64);
+            if om != el.m {
+                bad = true;
+                viol(o, rep, op.name(), &format!("{}|{}|oracle", scheme, cls), "value", format!("oracle decryption != program value: got {:?} want {:?}", &om[..om.len().min(8)], &el.m[..el.m.len().min(8)]), m, trace);
+            }
+            if let (Some(meas), Some(st)) = (el.e_meas, el.e_step) { if st > 0.0 { rep.max("measured_over_stepbound", meas / st); } }
+        }
+        let nontrivial = el.m.iter().any(|&x| x != 0);
+        rep.eval(if nontrivial { Some(cell.as_str()) } else { None });
+    } else {
+        rep.out_of_precondition += 1;
+        rep.count("out_of_precondition_ops", op.name());
+        rep.eval(None);
+    }
+    // a wrong element would only produce follow-up alarms: stop using it
+    let keep = !bad && (p1 || p2 || push_always);
+    if keep { m.pool.push(el); }
+    keep
+}
+
+pub fn op_brief(op: &Op) -> String {
+    match op {
+        Op::AddPlain(a, p) => format!("add_plain({}, len{})", a, p.len()),
+        Op::SubPlain(a, p) => format!("sub_plain({}, len{})", a, p.len()),
+        Op::MultiplyPlain(a, p, n) => format!("multiply_plain({}, len{}, nz{}, ntt={})", a, p.len(), p.iter().filter(|&&x| x != 0).count(), n),
+        o => format!("{:?}", o),
+    }
+}
+
+fn init_pool(o: &Obs, rep: &mut Report, m: &mut Machine, rng: &mut Rng, count: usize, trace: &mut Vec<String>) -> bool {
+    for _ in 0..count {
+        let (cls, coeffs) = gen_plain(rng, m.n(), m.t());
+        let pk = rng.bool();
+        trace.push(format!("fresh({}, {})", cls, if pk { "pk" } else { "sk" }));
+        if let Err(p) = m.fresh(&coeffs, pk) { viol(o, rep, "encrypt", m.kit.spec.scheme_name(), "panic", format!("encryption panicked: {}", p.0), m, trace); return false; }
+    }
+    true
+}
+
+fn programs(cfg: &Cfg, grp: &str, case: u64, rng: &mut Rng, rep: &mut Report, ns: &[usize], max_steps: usize) {
+    let Some(spec) = program_spec(rng, ns, None) else { rep.count("generator", "no_spec"); return; };
+    let Ok(kit) = Kit::new(&spec) else { rep.count("generator", "context_rejected"); return; };
+    rep.count("generator", "ok");
+    rep.count("params", &format!("{}|n={}|k={}|t:{}", spec.scheme_name(), spec.n, spec.qs.len(), spec.family));
+    let o = Obs { cfg, grp, case, prop: P };
+    let mut m = Machine::new(&kit, spec.n <= 256);
+    let mut trace = vec![];
+    if !init_pool(&o, rep, &mut m, rng, 4, &mut trace) { return; }
+    let steps = rng.range(4, max_steps as u64) as usize;
+    for _ in 0..steps {
+        let Some(op) = m.random_op(rng) else { break };
+        let form = *rng.pick(&FORMS);
+        step_c02(&o, rep, &mut m, &op, form, &mut trace, false);
+        if m.pool.len() > 24 { break; }
+    }
+    if case < 2 { rep.sample(json!({"group": grp, "case": case, "params": spec.describe(), "program": trace,
+        "final_pool": m.pool.iter().map(|e| json!({"origin": e.origin, "size": e.ct.size(), "level": e.level, "ntt": e.ct.is_ntt_form(), "cf": e.ct.correction_factor(), "shadow_head": e.m[..e.m.len().min(4)], "measured_noise": e.e_meas})).collect::<Vec<_>>()})); }
+}
+
+/// all ordered size pairs for add / sub / multiply
+fn sizepairs(cfg: &Cfg, grp: &str, case: u64, rng: &mut Rng, rep: &mut Report) {
+    let scheme = if case % 2 == 0 { SchemeType::BFV } else { SchemeType::BGV };
+    let n = if (case / 2) % 2 == 0 { 2 } else { 4 };
+    // 6 large primes, tiny plain modulus: maximal head-room
+    let Some(qs) = coeff_primes(n, &[60, 60, 60, 60, 60, 59], rng) else { return };
+    let t = *rng.pick(&[2u64, 3, 4, 5]);
+    let spec = Spec { scheme, n, qs, t, special_flag: false, expand: rng.bool(), family: "sizepairs".into() };
+    let Ok(kit) = Kit::new(&spec) else { rep.count("generator", "context_rejected"); return; };
+    let o = Obs { cfg, grp, case, prop: P };
+    let mut m = Machine::new(&kit, true);
+    let mut trace = vec![];
+    // chain[s] = index of a size-s ciphertext, s = 2..16
+    let mut chain = vec![usize::MAX; 17];
+    let (_, c0) = gen_plain(rng, n, t);
+    if m.fresh(&c0, true).is_err() { return; }
+    chain[2] = 0;
+    for s in 3..=16usize {
+        let (_, c) = gen_plain(rng, n, t);
+        let Ok(f) = m.fresh(&c, rng.bool()) else { return };
+        let op = if rng.bool() { Op::Multiply(chain[s - 1], f) } else { Op::Multiply(f, chain[s - 1]) };
+        if !step_c02(&o, rep, &mut m, &op, *rng.pick(&FORMS), &mut trace, true) { return; }
+        chain[s] = m.pool.len() - 1;
+    }
+    for a in 2..=16usize { for b in 2..=16usize {
+        for which in 0..3 {
+            let op = match which { 0 => Op::Add(chain[a], chain[b]), 1 => Op::Sub(chain[a], chain[b]), _ => Op::Multiply(chain[a], chain[b]) };
+            if m.applicable(&op).is_some() { continue; }
+            let before = m.pool.len();
+            step_c02(&o, rep, &mut m, &op, *rng.pick(&FORMS), &mut trace, true);
+            rep.count("size_pairs", &format!("{}|{}|{}x{}", spec.scheme_name(), op.name(), a, b));
+            m.pool.truncate(before.max(chain[16] + 1));
+            trace.truncate(20);
+        }
+    } }
+}
+
+/// BGV: operands with unequal correction factors at one level
+fn bgv_factors(cfg: &Cfg, grp: &str, case: u64, rng: &mut Rng, rep: &mut Report) {
+    let Some(spec) = program_spec(rng, &[4, 8, 16], Some(SchemeType::BGV)) else { return };
+    if spec.qs.len() < 3 { return; }
+    let Ok(kit) = Kit::new(&spec) else { return };
+    let o = Obs { cfg, grp, case, prop: P };
+    let mut m = Machine::new(&kit, true);
+    let mut trace = vec![];
+    if !init_pool(&o, rep, &mut m, rng, 3, &mut trace) { return; }
+    // a' = modswitch(a) has factor q^-1; c = a'*a' has factor q^-2; then c +/- a', c +/- modswitch(b)*plain ...
+    if !step_c02(&o, rep, &mut m, &Op::ModSwitchNext(0), *rng.pick(&FORMS), &mut trace, false) { return; }
+    let a1 = m.pool.len() - 1;
+    if !step_c02(&o, rep, &mut m, &Op::ModSwitchNext(1), *rng.pick(&FORMS), &mut trace, false) { return; }
+    let b1 = m.pool.len() - 1;
+    if !step_c02(&o, rep, &mut m, &Op::Multiply(a1, b1), *rng.pick(&FORMS), &mut trace, false) { return; }
+    let c = m.pool.len() - 1;
+    let pairs = [(c, a1), (a1, c), (c, b1)];
+    for (x, y) in pairs {
+        let (f1, f2) = (m.pool[x].ct.correction_factor(), m.pool[y].ct.correction_factor());
+        rep.count("bgv_factor_pairs", if f1 == f2 { "equal" } else { "unequal" });
+        for op in [Op::Add(x, y), Op::Sub(x, y)] {
+            step_c02(&o, rep, &mut m, &op, *rng.pick(&FORMS), &mut trace, false);
+        }
+    }
+    // keep going randomly from here
+    for _ in 0..4 { if let Some(op) = m.random_op(rng) { step_c02(&o, rep, &mut m, &op, *rng.pick(&FORMS), &mut trace, false); } }
+}
+
+pub fn run(cfg: &Cfg, rep: &mut Report) -> PropMeta {
+    let deep = cfg.pick(12usize, 30usize);
+    run_cases(cfg, "programs", cfg.n(18000, 300000) as u64, rep, |i, rng, rep| programs(cfg, "programs", i, rng, rep, &[2, 4, 8, 16, 32], deep));
+    run_cases(cfg, "programs_mid", cfg.n(120, 2000) as u64, rep, |i, rng, rep| programs(cfg, "programs_mid", i, rng, rep, &[64, 128, 256], deep));
+    run_cases(cfg, "programs_big", cfg.n(12, 120) as u64, rep, |i, rng, rep| programs(cfg, "programs_big", i, rng, rep, &[1024, 4096], 6));
+    run_cases(cfg, "sizepairs", cfg.n(16, 160) as u64, rep, |i, rng, rep| sizepairs(cfg, "sizepairs", i, rng, rep));
+    run_cases(cfg, "bgv_factors", cfg.n(2000, 30000) as u64, rep, |i, rng, rep| bgv_factors(cfg, "bgv_factors", i, rng, rep));
+    PropMeta {
+        id: "C02", level: "exploration",
+        rule: "typed random operation programs (negate, add, sub, add_many, multiply, square, add/sub/multiply_plain incl. NTT-form and monomial plaintexts, transform_to/from_ntt, relinearize, mod_switch_to_next; random API form per step) over pools of fresh BFV/BGV ciphertexts at N=2..32 (mid: 64..256, big: 1024/4096), 2..6 primes, several plain-modulus families; all ordered operand-size pairs (a,b), a+b-1<=16, for add/sub/multiply at N=2,4; BGV unequal correction-factor pairs. distinct = distinct (scheme, op, operand sizes, level, representation) cells asserted with a non-zero shadow",
+        assumptions: vec!["equality asserted only when the worst-case noise bound is below q/(4t) (BFV) or q/4 (BGV): P1 analytic recursion, or P2 one-step worst case from exactly measured operand noise".into(),
+            "noise growth rules: see harness/src/prog.rs step_bound (BEHZ lifts assumed within 0.51q; key-switch noise 21*N*sum(q_i)/P + N + 3)".into(),
+            "oracle decryptor for N<=256; library decryptor only above".into()],
+        exhaustive: false, floor: 2000,
+    }
 }
